@@ -99,6 +99,22 @@ impl InternerShared {
     }
 }
 
+#[cfg(pep508_rs_verif)]
+impl InternerShared {
+    /// Verification hook: the number of interned nodes.
+    pub(crate) fn verif_len(&self) -> usize {
+        self.nodes.count()
+    }
+}
+
+#[cfg(pep508_rs_verif)]
+impl NodeId {
+    /// Verification hook: the raw id.
+    pub(crate) fn verif_raw(self) -> usize {
+        self.0
+    }
+}
+
 impl Interner {
     /// Locks the interner state, returning a guard that can be used to perform marker
     /// operations.
